@@ -5,6 +5,7 @@ package main
 // and records one event per step.  It decides nothing.
 
 import (
+	"bufio"
 	"bytes"
 	"encoding"
 	"encoding/json"
@@ -61,6 +62,7 @@ type machine struct {
 	spos    map[int][]byte
 	bufs    map[int][]byte
 	slices  map[int][]mq.TopicFilter
+	bufios  map[int]*bufio.Reader
 	out     *json.Encoder
 	flush   func() error
 	mu      sync.Mutex
@@ -434,6 +436,7 @@ func (m *machine) runStep(idx int, s step) (stop bool) {
 		if s.Writer != nil {
 			w.plan = *s.Writer
 		}
+		strN0 := strN(p.(fmt.Stringer).String()) // the size String() prints before the write
 		n, err := p.(io.WriterTo).WriteTo(w)
 		offered := []any{}
 		for _, o := range w.offered {
@@ -446,7 +449,7 @@ func (m *machine) runStep(idx int, s step) (stop bool) {
 		m.written[s.H] = append([]byte{}, w.accepted...)
 		e := obj{"ev": "WriteTo", "h": s.H, "writes": calls, "n": int(n), "err": errTag(err),
 			"offered": offered, "accepted": ints(w.accepted), "wkind": w.plan.Kind, "wk": w.plan.K,
-			"strN": strN(p.(fmt.Stringer).String()), "type": typeName(p)}
+			"strN": strN(p.(fmt.Stringer).String()), "strN0": strN0, "type": typeName(p)}
 		m.attachObs(e, s.H, s.NoObs)
 		m.emit(e)
 
@@ -482,6 +485,10 @@ func (m *machine) runStep(idx int, s step) (stop bool) {
 			plan = *s.Reader
 		}
 		m.streams[s.Stream] = newScriptedReader(data, plan)
+		delete(m.bufios, s.Stream)
+		if s.Key == "bufio" { // the caller hands ReadPacket a *bufio.Reader on top of the transport
+			m.bufios[s.Stream] = bufio.NewReader(m.streams[s.Stream])
+		}
 		m.spos[s.Stream] = data
 		fate := "eof"
 		if plan.Fate == "err" {
@@ -497,14 +504,23 @@ func (m *machine) runStep(idx int, s step) (stop bool) {
 		}
 		pos0 := r.pos
 		var rd io.Reader = r
+		br := m.bufios[s.Stream]
+		if br != nil {
+			rd = br
+			pos0 = r.pos - br.Buffered()
+		}
 		m.steps = 0
 		stepLimit = budgetFor(len(r.data) - r.pos)
 		alloc0 := totalAlloc()
 		p, err := mq.ReadPacket(rd)
 		alloc := clampAlloc(totalAlloc() - alloc0)
 		stepLimit = 0
-		e := obj{"ev": "Read", "stream": s.Stream, "h": s.H, "pos0": pos0, "pos1": r.pos, "calls": r.takeCalls(),
-			"ok": err == nil, "nilpkt": isNilPacket(p), "isE": errors.Is(err, ErrInjected), "isEOF": errors.Is(err, io.EOF),
+		pos1 := r.pos
+		if br != nil {
+			pos1 = r.pos - br.Buffered() // what ReadPacket took out of the caller's bufio.Reader
+		}
+		e := obj{"ev": "Read", "stream": s.Stream, "h": s.H, "pos0": pos0, "pos1": pos1, "calls": r.takeCalls(), "wrapped": br != nil,
+			"ok": err == nil, "nilpkt": p == nil, "typednil": p != nil && isNilPacket(p), "isE": errors.Is(err, ErrInjected), "isEOF": errors.Is(err, io.EOF),
 			"steps": int(stepCount()), "alloc": int(alloc)}
 		if err != nil {
 			e["errtext"] = err.Error()
@@ -695,6 +711,26 @@ func (m *machine) runStep(idx int, s step) (stop bool) {
 		m.attachObs(ev, s.H, s.NoObs)
 		m.emit(ev)
 
+	case "CallElem":
+		// p.Key()[N].M(args): a setter called on an element of the slice an accessor returned (e.g. Filters()[0].SetFilter)
+		p := m.pkts[s.H]
+		if isNilPacket(p) {
+			m.emit(obj{"ev": "Skip", "op": s.Op, "h": s.H, "why": "nil handle"})
+			return true
+		}
+		sl := reflect.ValueOf(p).MethodByName(s.Key).Call(nil)[0]
+		if s.N >= sl.Len() {
+			m.emit(obj{"ev": "Skip", "op": s.Op, "h": s.H, "why": "no such element"})
+			return false
+		}
+		el := sl.Index(s.N).Addr().Interface()
+		if err := m.call(el, s.M, s.Args); err != nil {
+			fatal("CallElem: %v", err)
+		}
+		ev := obj{"ev": "CallElem", "h": s.H, "key": s.Key, "n": s.N, "m": s.M, "args": s.Args}
+		m.attachObs(ev, s.H, s.NoObs)
+		m.emit(ev)
+
 	case "CmpDiag":
 		// a marker: the trace specification compares the Diag outputs of the two handles
 		m.emit(obj{"ev": "CmpDiag", "hs": s.Hs})
@@ -741,6 +777,7 @@ func (m *machine) runProgram(pr program) {
 	m.spos = map[int][]byte{}
 	m.bufs = map[int][]byte{}
 	m.slices = map[int][]mq.TopicFilter{}
+	m.bufios = map[int]*bufio.Reader{}
 	m.observe = ""
 	if len(pr.Steps) > 0 && pr.Steps[0].Observe != "" {
 		m.observe = pr.Steps[0].Observe
